@@ -300,8 +300,40 @@ def run_bytesio(om, n, CL, M, extra, spelling=None, raw=False):
     return obs, data
 
 
+def run_retarget(om, n, CL, M, look_first):
+    """a request that arrived chunked is turned into a Content-Length request through the item interface (a gateway / middleware that
+    de-chunks up front): a hook may have looked at request.chunked before"""
+    import io
+    data = data_of(n) + b'NEXT-REQUEST'
+    env = wsgi.environ('POST', '/', input=io.BytesIO(b'5\r\nhello\r\n0\r\n\r\n'), clen=None, chunked=True)
+    req = om.Request(env, config={'max_memfile_size': M})
+    try:
+        if look_first:
+            assert req.chunked is True
+        req['wsgi.input'] = io.BytesIO(data)
+        req['CONTENT_LENGTH'] = str(CL)
+        del req['HTTP_TRANSFER_ENCODING']
+        return req.body.read(), data
+    except Exception as e:   # noqa
+        return f'{type(e).__name__}: {e}', data
+
+
 def work_bytesio(res, om):
     c = res['counters']
+    for n in (0, 1, 5, 10):
+        for CL in [x for x in cls_for(n) if x is not None and x >= 0]:
+            for M in (1, 3, 64):
+                for look_first in (False, True):
+                    got, data = run_retarget(om, n, CL, M, look_first)
+                    res['execs'] += 1
+                    res['states'] += 1
+                    res['transitions'] += 1
+                    c['retargeted'] += 1
+                    exp = expected(data, CL)
+                    if got != exp:
+                        core.add_violation(res, {'kind': 'retarget', 'n': n, 'CL': CL, 'M': M, 'look_first': look_first, 'choices': []},
+                                           f'a chunked request{" whose request.chunked was looked at" if look_first else ""} is given a plain stream {data!r}, Content-Length {CL} and no '
+                                           f'Transfer-Encoding through request[...] (M={M}): body {got!r}, expected {exp!r}', sig='retarget')
     for n in range(0, 11):
         for extra in (b'', b'NEXT-REQUEST'):
             for CL in cls_for(n):
@@ -600,6 +632,12 @@ def replay(case):
         sut.load(fresh=True)
         return None if v is None else (f'requests with the bodies {pair[0]!r} and {pair[1]!r} on two threads of one application (max_memfile_size={case["M"]}) under the '
                                        f'schedule with {x.switches} switches: {v[1]}')
+    if case['kind'] == 'retarget':
+        got, data = run_retarget(om, case['n'], case['CL'], case['M'], case['look_first'])
+        exp = expected(data, case['CL'])
+        return None if got == exp else (f'a request that arrived chunked{" (a hook looked at request.chunked)" if case["look_first"] else ""} is given a plain stream {data!r}, '
+                                        f'Content-Length {case["CL"]} and no Transfer-Encoding through request[...] (max_memfile_size={case["M"]}): request.body gives {got!r}, '
+                                        f'expected {exp!r}')
     if case['kind'] == 'appseq':
         pr = seq_problem(sut.load(fresh=True), case['M'], case['seq'])
         sut.load(fresh=True)
